@@ -51,14 +51,47 @@ def run_check(pid, repo, tier="quick", seed="1", timeout=1800):
     return p.returncode, p.stdout, time.time() - t0
 
 
+def _devnull_guard():
+    """The repo's suite uses /dev/null as a directory name in places; a mutant that deletes caller
+    directories, run as root, can destroy the device node.  Restore it if that happened."""
+    import stat
+    try:
+        st_ = os.stat("/dev/null")
+        if stat.S_ISCHR(st_.st_mode):
+            return
+    except OSError:
+        pass
+    try:
+        if os.path.isdir("/dev/null"):
+            shutil.rmtree("/dev/null", ignore_errors=True)
+        elif os.path.exists("/dev/null"):
+            os.unlink("/dev/null")
+        os.mknod("/dev/null", 0o666 | stat.S_IFCHR, os.makedev(1, 3))
+        os.chmod("/dev/null", 0o666)
+        print("note: /dev/null had been clobbered by a mutant test run; restored")
+    except OSError as e:
+        print("WARNING: could not restore /dev/null: %s" % e)
+
+
 def run_tests(repo):
-    p = subprocess.run(["/venv/bin/python", "-m", "pytest", "-q", "-p", "no:cacheprovider", "-x", "-q",
-                        "--deselect", "test/test_endpoints.py::EndpointTests::test_explit_dir_not_readable_version2",
-                        "--deselect", "test/test_endpoints.py::EndpointTests::test_system_tor_explit_dir_not_readable0",
-                        "--deselect", "test/test_torconfig.py::HiddenServiceTests::test_single_client_ioerror",
-                        "-n", "8"],
-                       cwd=repo, stdout=subprocess.PIPE, stderr=subprocess.STDOUT, text=True,
-                       env={k: v for k, v in os.environ.items() if k != "PYTHONPATH"})
+    """Run the repo's own suite in the scratch copy, isolated from the sandbox's /dev."""
+    cmd = ["/venv/bin/python", "-m", "pytest", "-q", "-p", "no:cacheprovider", "-x", "-q",
+           "--deselect", "test/test_endpoints.py::EndpointTests::test_explit_dir_not_readable_version2",
+           "--deselect", "test/test_endpoints.py::EndpointTests::test_system_tor_explit_dir_not_readable0",
+           "--deselect", "test/test_torconfig.py::HiddenServiceTests::test_single_client_ioerror",
+           "-n", "8"]
+    env = {k: v for k, v in os.environ.items() if k != "PYTHONPATH"}
+    if os.geteuid() == 0 and shutil.which("unshare"):
+        # private mount namespace with a throw-away /dev: the suite names /dev/null as a directory
+        # in places, and a mutant that deletes caller directories would otherwise destroy the node
+        import shlex
+        setup = ("mount -t tmpfs none /dev && mknod -m 666 /dev/null c 1 3 && mknod -m 666 /dev/zero c 1 5 && "
+                 "mknod -m 666 /dev/urandom c 1 9 && mknod -m 666 /dev/random c 1 8 && mknod -m 666 /dev/tty c 5 0 && "
+                 "ln -s /proc/self/fd /dev/fd && ln -s /proc/self/fd/0 /dev/stdin && ln -s /proc/self/fd/1 /dev/stdout && "
+                 "ln -s /proc/self/fd/2 /dev/stderr && mkdir /dev/shm && chmod 1777 /dev/shm && exec ")
+        cmd = ["unshare", "-m", "sh", "-c", setup + " ".join(shlex.quote(c) for c in cmd)]
+    p = subprocess.run(cmd, cwd=repo, stdout=subprocess.PIPE, stderr=subprocess.STDOUT, text=True, env=env)
+    _devnull_guard()
     tail = p.stdout.strip().split("\n")[-1]
     return p.returncode == 0, tail
 
